@@ -56,7 +56,7 @@ class MockCA:
         self.trace = trace
         self.vc = vc
         self.o = dict(
-            nonce_on_get=True, authz_polls=1, ready_polls=1, order_polls=1, chain_len=1,
+            nonce_on_get=True, problem_style=None, authz_polls=1, ready_polls=1, order_polls=1, chain_len=1,
             cert_lifetime_s=90 * 86400, offered=["http-01", "dns-01", "tls-alpn-01"],
             authz_status={}, authz_perm=None, chall_perm=None, eab_keys={}, require_eab=False,
             delay=None, validate=None, tls=None, seed=0, tos=True, orders_field=True,
@@ -314,6 +314,13 @@ class MockCA:
             ev["resp"] = {"status": status, "nonce": (headers or {}).get("Replay-Nonce"),
                           "location": (headers or {}).get("Location"),
                           "body_sha": hashlib.sha256(rbody).hexdigest() if rbody is not None else None}
+            if (headers or {}).get("Content-Type") == "application/problem+json":
+                try:
+                    pd = json.loads(rbody)
+                    if isinstance(pd, dict) and isinstance(pd.get("type"), str) and isinstance(pd.get("detail"), str):
+                        ev["resp"]["problem"] = {"type": pd["type"], "detail": pd["detail"][:300], "detail_len": len(pd["detail"])}
+                except Exception:
+                    pass
             self.trace.emit(ev)
         if resp is None:
             # dropped connection: no answer at all
@@ -384,6 +391,16 @@ class MockCA:
             # an ASCII lead of 0..3 characters that changes with every answer, so that any byte offset falls inside a letter sooner or later
             lead = "x" * (self.reqno % 4)
             doc["detail"] = doc["detail"] + ": " + lead + letter * max(1, nbytes // len(letter.encode()))
+        # optional members of a problem document (RFC 7807 "instance", RFC 8555 6.7.1 "subproblems" - empty, or one entry):
+        # the top-level detail is the CA's message in every style
+        style = self.o.get("problem_style")
+        if style == "subproblems_empty":
+            doc["subproblems"] = []
+        elif style == "subproblems":
+            doc["subproblems"] = [{"type": ACME_ERR + "caa", "detail": "sub-problem text", "identifier": {"type": "dns", "value": "sub.example.org"}}]
+        elif style == "instance":
+            doc["instance"] = self.base + "/problem/%d" % self.reqno
+            doc["title"] = "a title"
         return self._json(status, doc, nonce=nonce, ctype="application/problem+json")
 
     def _directory(self):
